@@ -107,13 +107,13 @@ func crcCovered(p *load.Program, s an.TaintSink) (string, bool) {
 	fn := s.Fn
 	for _, b := range an.Blocks(fn) {
 		_, ci := an.IfCond(b)
-		if ci == nil || ci.Op != token.NEQ {
+		if ci.Edge(token.EQL) < 0 {
 			continue
 		}
 		if !(strings.Contains(argDesc(ci.X), ".crc32") || strings.Contains(argDesc(ci.Y), ".crc32")) {
 			continue
 		}
-		match := b.Succs[1]
+		match := b.Succs[ci.Edge(token.EQL)]
 		if match == s.Ins.Block() || match.Dominates(s.Ins.Block()) {
 			return "dominated by the verified checksum at " + p.Pos(b.Instrs[len(b.Instrs)-1].Pos()) + " (fields under a checksum are outside the property's quantifier)", true
 		}
